@@ -170,14 +170,14 @@ def run(tier, corrupt=False):
             require(len(orders) >= 2, "TLC emitted fewer than two discovery orders")
             cov["states"] += r.distinct
             cov["transitions"] += r.generated
-            k = 6 if tier == "quick" else 24
+            k = 4 if tier == "quick" else 24
             pick = [orders[0], orders[-1]] + [orders[(seed() * 7 + j * 5) % len(orders)] for j in range(k - 2)]
             xml = tmp / f"xml_{tname}"
             write_tree(xml, tree_files(progs, types))
             canon = None
             configs = []
             for j, order in enumerate(pick):
-                for hs in ([0, 1] if tier == "quick" else [0, 1, 2, 3, 1000 + seed()]):
+                for hs in ([0, 1, 2, 3] if tier == "quick" else [0, 1, 2, 3, 4, 5, 1000 + seed()]):
                     configs.append((order, hs, 1, False))
             configs.append((pick[0], 0, 2, False))          # twice in a row into one directory
             configs.append((pick[-1], 3, 1, True))          # into a pre-populated directory
